@@ -126,7 +126,9 @@ pub struct LtServer {
 }
 
 pub fn lt_key(user: &str, realm: &str, password: &str, alg: u16) -> Vec<u8> {
-    let s = format!("{}:{}:{}", user, realm, password);
+    // `user` and `password` arrive in enforced form; the realm arrives as sent on the wire and the
+    // only non-OpaqueString construct the responder generates in it is U+00A0 (mapped to U+0020)
+    let s = format!("{}:{}:{}", user, realm.replace('\u{a0}', " "), password);
     if alg == 2 {
         hash::sha256(s.as_bytes()).to_vec()
     } else {
@@ -262,8 +264,13 @@ impl Responder {
     #[allow(clippy::too_many_arguments)]
     pub fn challenge_variant(&mut self, rng: &mut Rng, txid: &Id, method: u16, algs: u8, anonymity: bool, cookie: bool, new_realm: bool, variant: u8) -> (Vec<u8>, LtServer) {
         self.seq += 1;
+        // One realm in four is legal on the wire but not in OpaqueString form (NO-BREAK SPACE, which
+        // enforcement maps to U+0020): the client must echo it verbatim and derive its key from the
+        // enforced form (RFC 8489 9.2.2; lt_key applies the mapping).  Such realms are not combined
+        // with user-name anonymity here (USERHASH over a mapped realm is left unexplored, DESIGN 9).
         let realm = match (&self.lt, new_realm) {
-            (Some(lt), false) => lt.realm.clone(),
+            (Some(lt), false) if !anonymity || !lt.realm.contains('\u{a0}') => lt.realm.clone(),
+            _ if !anonymity && rng.chance(1, 4) => format!("realm{}\u{c9}\u{a0}x.example.org", self.seq),
             _ => format!("realm{}.example.org", self.seq),
         };
         // algs: 0 none, 1 [MD5], 2 [SHA256], 3 [MD5, SHA256], 4 [SHA256, MD5]
